@@ -1,0 +1,56 @@
+//go:build verif
+
+package geom
+
+// Ghost clients: small programs that call two or more library functions through
+// their contracts, so that two-call properties (set then read back, push then
+// access) become postconditions. They are compiled only with the verif tag
+// and are never called.
+
+func verifRoundTrip0(layout Layout, c Coord) Coord {
+	g := NewPoint(layout)
+	if _, err := g.SetCoords(c); err != nil {
+		return nil
+	}
+	return g.Coords()
+}
+
+func verifRoundTrip1(layout Layout, cs []Coord) []Coord {
+	g := NewLineString(layout)
+	if _, err := g.SetCoords(cs); err != nil {
+		return nil
+	}
+	return g.Coords()
+}
+
+func verifRoundTripRing(layout Layout, cs []Coord) []Coord {
+	g := NewLinearRing(layout)
+	if _, err := g.SetCoords(cs); err != nil {
+		return nil
+	}
+	return g.Coords()
+}
+
+func verifRoundTrip2(layout Layout, cs [][]Coord) [][]Coord {
+	g := NewPolygon(layout)
+	if _, err := g.SetCoords(cs); err != nil {
+		return nil
+	}
+	return g.Coords()
+}
+
+func verifRoundTripMLS(layout Layout, cs [][]Coord) [][]Coord {
+	g := NewMultiLineString(layout)
+	if _, err := g.SetCoords(cs); err != nil {
+		return nil
+	}
+	return g.Coords()
+}
+
+func verifRoundTripMP(layout Layout, cs []Coord) []Coord {
+	g := NewMultiPoint(layout)
+	if _, err := g.SetCoords(cs); err != nil {
+		return nil
+	}
+	return g.Coords()
+}
